@@ -10,41 +10,65 @@ COQ_PREFIXES = ["C08", "C01"]
 EXTRACTED = "C08_model"
 DRIVER = "drv_C08.ml"
 HARNESS = "h_C08.cpp"
-VARIANTS = {"quick": ["O1"], "thorough": ["O1", "asan"]}
+VARIANTS = {"quick": ["O1", "assert"], "thorough": ["O1", "assert", "asan"]}
 AXIOMS_ALLOWED = runner.REAL_AXIOMS     # only the product-form theorems (over R) use them; the others are axiom-free
 MODEL_NEEDS_IMPL = True                  # the standard-normal draws logged by the harness are inputs of the model
 TIMEOUT = 1500
 REQUIRED_THEOREMS = ["C08_predict_frame", "C08_predict_beliefs", "C08_correct_beliefs", "C08_correct_positions",
                      "C08_correct_likelihood_on_drawn", "C08_weight_formula", "C08_weight_product_form",
                      "C08_invalid_restores", "C08_mahalanobis", "C08_multi_step", "C08_kf_conjugate_beliefs", "C08_kf_mahalanobis",
-                     "C08_weights_telescope", "C08_draws_from_own_generator", "C08_draw_touches_own_generator_only",
+                     "C08_weights_telescope", "C08_unscented_steps_shape_ok", "C08_gauss_lik_length", "C08_pf_trace_noskip", "C08_pf_skip_correction",
+                     "C08_draws_from_own_generator", "C08_draw_touches_own_generator_only",
                      "C08_move_assign_transfers_likelihood_model", "C08_fresh_reports_invalid",
                      "C08_pre_fix_draws_from_own_generator_refuted", "C08_pre_fix_fresh_likelihood_invalid_refuted", "C08_pre_fix_move_assign_refuted"]
-RULE = ("cases from one seeded stream: n in 1..4 (4 with the library's WhiteNoiseAcceleration as transition model), m in 1..3, "
-        "N in 1..30 particles, 1..5 steps on the two persistent buffers, H random / rank-deficient / selector / zero, SPD P_i, Q, R with "
-        "chosen condition numbers, transition model linear-Gaussian (same as or different from the prediction model) / WNA / Cauchy-like, "
-        "wrapped steps KF / UKF (additive) / SUKF over the LTI models (the model side uses the Kalman steps: C04/C05 equivalence), "
-        "steps with an unusable measurement or a likelihood model that reports invalid, outlier measurements and far-off positions (densities in the "
-        "underflow range), 32-bit seeds, likelihood scale factors incl. 0; "
-        "plus lifetime cases (getLikelihood() on a fresh object constructed in 0xFF-filled storage; move construction + destruction of the source; "
-        "move-assignment chain a2 = move(a1); a1 = move(a3) with different seeds and likelihood models, compared with never-moved reference objects); "
-        "non-trivial = N >= 2 and at least one valid correction; distinct by (n, m, N class, steps, tkind, wrap, invalid pattern, cond decade)")
+# The 9 obligations about rs_step / rs_run (object-lifetime state machine) are a separate group: that model is not extracted;
+# it is tied to the code by the scripted scenarios of the harness kinds gpf_fresh / gpf_moved only.
+LIFETIME_THEOREMS = ["C08_draws_from_own_generator", "C08_draw_touches_own_generator_only", "C08_move_construct",
+                     "C08_move_assign_transfers_likelihood_model", "C08_fresh_reports_invalid", "C08_reported_validity_defined",
+                     "C08_pre_fix_draws_from_own_generator_refuted", "C08_pre_fix_fresh_likelihood_invalid_refuted", "C08_pre_fix_move_assign_refuted"]
+RULE = ("cases from one seeded stream: n in 1..4 and 6 (2, 4, 6 with the library's WhiteNoiseAcceleration OneD/TwoD/ThreeD as transition model), m in 1..3, "
+        "N in 1..30 particles, 1..5 steps on the two persistent buffers; wrapped steps KFPrediction/KFCorrection, UKFPrediction/UKFCorrection (additive), "
+        "UKFPrediction/SUKFCorrection; measurement function linear or nonlinear (C05's family: + g sin(Gx), + g (Gx)(G2x)) for the unscented steps; "
+        "H random / rank-deficient / selector / zero, SPD P_i, Q, R with chosen condition numbers (P_i up to 10^4.5), one case in 20 with rank-deficient beliefs "
+        "and no / rank-deficient process noise (outside the domain spd P: counted); transition model linear-Gaussian (same as or different from the prediction "
+        "model) / WNA / Cauchy-like; likelihood model bfl::GaussianLikelihood or a model of the harness that does not consult the measurement model's validity; "
+        "per step scripted validity of measure / predictedMeasure / innovation / getNoiseCovarianceMatrix and of the likelihood model, skip flags of PFPrediction, "
+        "GaussianPrediction, PFCorrection, GaussianCorrection; outlier measurements and far-off positions (densities in the underflow range), 32-bit seeds, "
+        "likelihood scale factors incl. 0; likelihood models returning one value too many / too few (the latter under Eigen assertions only); "
+        "lifetime cases (getLikelihood() on a fresh object constructed in 0xFF-filled storage; move construction + destruction of the source; move-assignment chain "
+        "a2 = move(a1); a1 = move(a3) compared with never-moved reference objects); "
+        "non-trivial = N >= 2 and at least one valid correction; distinct by (n, m, N class, steps, tkind, wrap, hkind, likkind, validity/skip pattern, cond decade)")
 TRUSTED_BASE = ["Coq 8.16.1 kernel (coqc); structural, Mahalanobis and C01-composition theorems are axiom-free; the product form of the weight update "
                 "is over Coq's R and uses the four real-number axioms of the standard library (sig_forall_dec, sig_not_dec, functional_extensionality_dep, classic)",
                 "MathComp 1.15 matrix theory",
-                "extraction (ExtrOcamlBasic only) and ocaml/float_ops.ml, ocaml/drv_C08.ml (incl. its LDL^T square root with Eigen's pivoting rule, "
-                "whose contract L L^T = P is checked on every call), ocaml/caseio.ml",
+                "extraction (ExtrOcamlBasic only) and ocaml/float_ops.ml, ocaml/drv_C08.ml, ocaml/caseio.ml; the driver supplies only the square-root oracle of "
+                "the unscented steps (a Jacobi factor equivalent to Eigen's U sqrt(S)) and the mapping of positions through another factor; the LDL^T square root of "
+                "the proposal draws is Gallina (C08_Model.ldlt_sqrt, extracted)",
+                "C05_Model (per-component additive UKF / SUKF correction, measurement family) as imported wrapped steps",
                 "ListOps list instance of MatOps (structural operations and Gauss-Jordan inverse/determinant, unproved)",
-                "cpp/h_C08.cpp harness (logs the draws by wrapping the protected gaussian_random_sample_, cross-checked against a mirror mt19937_64)",
-                "comparison tolerances rtol 1e-9*cond (model vs implementation), 1e-7*cond (spec formulae on the implementation)",
+                "cpp/h_C08.cpp harness (logs the draws by wrapping the protected gaussian_random_sample_, cross-checked against a mirror mt19937_64; observes the "
+                "library's square-root factor by feeding unit vectors through gaussian_random_sample_ into sampleFromProposal(0, P))",
+                "comparison tolerances: beliefs and positions rtol 1e-9*cond; log-likelihood, log-proposal, log-weights and the square-root factor per particle, "
+                "3e-12 (1e-11 for the factor) times the conditioning of the particle's own chain and the sensitivity to its position; spec formulae on the "
+                "implementation 1e-11 * cond of the matrix inverted, weight identity 4e-15 * sum |terms|",
+                "the lifetime state machine rs_* is not extracted: tied to the code by scripted scenarios only",
                 "correspondence is sampled: agreement is established on the generated cases only",
                 "IEEE rounding is not modelled (theorems over exact fields)"]
 ASSUMPTIONS = ["std::normal_distribution<double>(0,1) over std::mt19937_64 yields independent standard-normal variates: with the proved Mahalanobis identity "
-               "(x-m)^T P^-1 (x-m) = z^T z this gives the chi-square(n) law of the squared Mahalanobis distances; supported (not proved) by a Kolmogorov-Smirnov test in the thorough tier",
-               "Eigen LDLT of a symmetric positive definite P returns factors with (P^T L sqrt(D)) (P^T L sqrt(D))^T = P (premise msqrt_contract; checked through the Mahalanobis identity on the implementation and on the driver's own factor)",
-               "the wrapped Gaussian step and the object it writes have the same number of components as its input (shape premise of the theorems; holds for KF/UKF/SUKF steps on equally shaped buffers)",
-               "the likelihood model returns one value per position and the transition model one value per pair (length premises), with non-negative values (premise of the product form)",
-               "Eigen inverse()/determinant() behave as matrix inverse/determinant up to rounding"]
+               "(x-m)^T P^-1 (x-m) = z^T z this gives the chi-square(n) law of the squared Mahalanobis distances; supported (not proved) by Kolmogorov-Smirnov tests "
+               "(pooled over all cases in both tiers, per case in the thorough tier; a finding only at p < 1e-6)",
+               "domain: the corrected covariances are symmetric positive definite (premise spd P of the Mahalanobis / proposal-density theorems). With a singular "
+               "belief the proposal density does not exist; the library then reports valid = 1 with NaN / inf log-weights (det = 0 in utils.h:303). Such particles "
+               "are generated, detected on the implementation's c_cov (condition number > 1e12) and counted, not judged",
+               "the LDL^T-based factor satisfies L L^T = P for symmetric positive definite P (premise of the Mahalanobis theorems, stated on the Gallina ldlt_sqrt); "
+               "checked on the library's own factor (observed through sampleFromProposal) at 1e-12*cond on every valid particle and against the model's factor",
+               "the wrapped Gaussian step and the object it writes have the same number of components as its input (shape premise of the theorems; proved for the "
+               "KF / UKF / SUKF / skipping steps of the model on equally shaped buffers)",
+               "the likelihood model returns one value per position and the transition model one value per pair (length premises of C08_weight_formula; proved for "
+               "GaussianLikelihood and the linear-Gaussian transition; a model returning fewer values makes GPFCorrection.cpp:129 read out of bounds - exercised under "
+               "Eigen assertions), with non-negative values (premise of the product form)",
+               "Eigen inverse()/determinant() behave as matrix inverse/determinant up to rounding; Eigen's jacobiSvd factor of the unscented steps is determined up to "
+               "column order and sign (distinct singular values)"]
 
 # Lifetime kinds (Properties_C08.v, "lifetime" section): gpf_fresh (getLikelihood() before the first correction) and
 # gpf_moved (move construction followed by destruction of the source; move-assignment chain with every object alive).
@@ -57,8 +81,13 @@ LIFETIME_COUNT = {"quick": 4, "thorough": 20}
 
 COUNTS = {"quick": 400, "thorough": 5000}
 KS_CASES = {"quick": 0, "thorough": 60}
+BADLIK_CASES = {"quick": 6, "thorough": 40}
 EPS = 2.2250738585072014e-308
-_stats = {"other_factor_steps": 0, "underflow_histories": 0, "d2": {}, "ks_cases": 0}
+UNDERFLOW = 1e-305          # Eigen's vectorised exp floors at 5.56e-309 where libm underflows to 0 (and is inexact on denormals)
+SINGULAR = 1e12             # a covariance with a larger condition number is outside the domain spd P
+C_LOG = 3e-12               # log-domain tolerance constant (times the per-particle conditioning unit), see _unit
+_stats = {"other_factor_steps": 0, "underflow_particles": 0, "singular_belief_particles": 0, "nan_weight_with_valid_on_singular": 0,
+          "tol_lw": [], "d2": {}, "ratios": {"lik": [], "q": [], "lw": [], "L": []}, "last_id": None, "pooled_done": False, "badlik_short_asserted": 0}
 
 
 # ------------------------------------------------------------------ generation
@@ -78,34 +107,57 @@ def stable_F(rng, n):
     return A, kind
 
 
-def wna(T, q):
+def wna(T, q, blocks):
     F2 = np.array([[1.0, T], [0.0, 1.0]])
     Q2 = np.array([[T ** 3 / 3.0, T ** 2 / 2.0], [T ** 2 / 2.0, T]]) * q
-    Z = np.zeros((2, 2))
-    return np.block([[F2, Z], [Z, F2]]), np.block([[Q2, Z], [Z, Q2]])
+    F = np.kron(np.eye(blocks), F2); Q = np.kron(np.eye(blocks), Q2)
+    return F, Q
 
 
-def make_case(rng, cid, n=None, N=None, steps=None, tkind=None, allvalid=False, kind="gpf", wrap=None):
-    n = n or rng.randint(1, 4); m = rng.randint(1, 3)
+def h_eval(hkind, H, G, G2, b, g, X):
+    out = H @ X + b
+    if hkind == 1:
+        out = out + g * np.sin(G @ X)
+    elif hkind == 2:
+        out = out + g * (G @ X) * (G2 @ X)
+    return out
+
+
+def h_jac(hkind, H, G, G2, g, x):
+    """Jacobian of the measurement function at the column vector x."""
+    J = H.copy()
+    if hkind == 1:
+        J = J + (g * np.cos(G @ x)) * G
+    elif hkind == 2:
+        J = J + (g * (G2 @ x)) * G + (g * (G @ x)) * G2
+    return J
+
+
+def make_case(rng, cid, n=None, N=None, steps=None, tkind=None, allvalid=False, kind="gpf", wrap=None, singular=False, plain=False):
+    if n is None:
+        n = rng.choice([1, 2, 2, 3, 4, 4, 6] if not plain else [1, 2, 3, 4])
+    m = rng.randint(1, 3)
     N = N or rng.choice([1, 2, 3, rng.randint(4, 12), rng.randint(13, 30)])
     steps = steps or rng.randint(1, 5)
     if tkind is None:
-        tkind = rng.choice(["lingauss", "lingauss", "cauchy"] + (["wna", "wna", "wna"] if n == 4 else []))
-    wrap = wrap or rng.choice(["kf"] * 7 + ["ukf"] * 2 + ["sukf"])
-    meta = {"n": n, "m": m, "N": N, "steps": steps, "tkind": tkind, "wrap": wrap}
+        tkind = rng.choice(["lingauss", "lingauss", "cauchy"] + (["wna%d" % (n // 2)] * 3 if n in (2, 4, 6) else []))
+    if n == 6 and not tkind.startswith("wna"):
+        n = 3
+    wrap = wrap or rng.choice(["kf"] * 6 + ["ukf"] * 3 + ["sukf"] * 2)
+    hkind = 0 if (wrap == "kf" or plain) else rng.choice([0, 1, 1, 2])
+    likkind = "gaussian" if (plain or rng.random() < 0.8) else "indep"
+    meta = {"n": n, "m": m, "N": N, "steps": steps, "tkind": tkind, "wrap": wrap, "hkind": hkind, "likkind": likkind, "singular": int(singular)}
     c = caseio.Case(cid, kind, meta)
-    if wrap != "kf":
-        # unscented parameters with n + lambda > 0 (lambda = alpha^2 (n + kappa) - n)
-        if wrap == "ukf":
-            c.mat("ut", [[rng.uniform(0.6, 1.0), rng.choice([0.0, 2.0]), rng.choice([0.0, 1.0, 3.0 - n if n < 3 else 0.0])]])
-        else:
-            # the serial UKF takes square roots of the covariance weights: parameters with non-negative weights (C05's domain)
-            c.mat("ut", [[1.0, 2.0, rng.choice([0.0, 1.0, 2.0])]])
+    if wrap == "ukf":
+        c.mat("ut", [[rng.uniform(0.6, 1.0), rng.choice([0.0, 2.0]), rng.choice([0.0, 1.0, 3.0 - n if n < 3 else 0.0])]])
+    elif wrap == "sukf":
+        # the serial UKF takes square roots of the covariance weights: parameters with non-negative weights (C05's domain)
+        c.mat("ut", [[1.0, 2.0, rng.choice([0.0, 1.0, 2.0])]])
     F, fk = stable_F(rng, n)
     Q, cq = gen.spd(rng, n, 10 ** rng.uniform(0, 2), lo=10 ** rng.uniform(-1, 0.3))
-    if tkind == "wna":
+    if tkind.startswith("wna"):
         T, q = rng.uniform(0.4, 1.5), rng.uniform(0.5, 8.0)
-        Ft, Qt = wna(T, q)
+        Ft, Qt = wna(T, q, n // 2)
         c.mat("wna", [[T, q]])
         if rng.random() < 0.6:
             F, Q, fk = Ft.copy(), Qt.copy(), "wna"
@@ -116,7 +168,13 @@ def make_case(rng, cid, n=None, N=None, steps=None, tkind=None, allvalid=False, 
     else:
         Ft = stable_F(rng, n)[0]
         Qt = gen.spd(rng, n, 10 ** rng.uniform(0, 2), lo=10 ** rng.uniform(-1, 0.3))[0]
-    H, hkind = gen.measurement_matrix(rng, m, n)
+    if singular:
+        # rank-deficient beliefs that stay rank-deficient: no (or rank-deficient) process noise
+        Q = np.zeros((n, n)) if rng.random() < 0.5 else gen.psd(rng, n, rank=max(1, n - 1) if n > 1 else 0, cond=10.0) * 0.05
+    H, hkind_H = gen.measurement_matrix(rng, m, n)
+    G, G2 = gen.matrix(rng, m, n, 0.5), gen.matrix(rng, m, n, 0.5)
+    b = np.zeros((m, 1)) if wrap == "kf" else gen.matrix(rng, m, 1, 0.5)
+    g = gen.matrix(rng, m, 1, 0.6)
     R, cr = gen.spd(rng, m, 10 ** rng.uniform(0, 3), lo=10 ** rng.uniform(-1, 0.5))
     # a consistent scenario (so that likelihoods / transition densities are informative, not underflowing):
     # a true trajectory, beliefs and positions scattered around it, measurements of it
@@ -124,7 +182,12 @@ def make_case(rng, cid, n=None, N=None, steps=None, tkind=None, allvalid=False, 
     spread = 10 ** rng.uniform(-1.0, 0.2)
     covs, cond = [], max(cq, cr, np.linalg.cond(Qt))
     for i in range(N):
-        P, cp = gen.spd(rng, n, 10 ** rng.uniform(0, 4.5), lo=spread ** 2 * 10 ** rng.uniform(-0.5, 0.5))
+        if singular and (i % 2 == 0 or rng.random() < 0.5):
+            P = gen.psd(rng, n, rank=rng.randint(0, n - 1)) * spread ** 2 if rng.random() < 0.7 else \
+                (np.ones((n, n)) if rng.random() < 0.5 else np.diag([1.0] + [0.0] * (n - 1)))
+            cp = 1.0
+        else:
+            P, cp = gen.spd(rng, n, 10 ** rng.uniform(0, 4.5), lo=spread ** 2 * 10 ** rng.uniform(-0.5, 0.5))
         covs.append(P); cond = max(cond, cp)
     means = truth + gen.matrix(rng, n, N, spread)
     states = means + gen.matrix(rng, n, N, 0.7 * spread)
@@ -136,111 +199,254 @@ def make_case(rng, cid, n=None, N=None, steps=None, tkind=None, allvalid=False, 
     ys = np.zeros((m, steps)); xt = truth
     for k in range(steps):
         xt = F @ xt
-        ys[:, k:k + 1] = H @ xt + np.linalg.cholesky(R) @ gen.matrix(rng, m, 1, 1.0)
+        ys[:, k:k + 1] = h_eval(hkind, H, G, G2, b, g, xt) + np.linalg.cholesky(R) @ gen.matrix(rng, m, 1, 1.0)
     outlier = rng.random() < 0.08
     if outlier:
         # one measurement tens of standard deviations off: likelihoods in the underflow range (ln(0 + eps) is exercised)
         u = gen.matrix(rng, m, 1, 1.0); u /= np.linalg.norm(u)
         ys[:, rng.randrange(steps)] += (np.linalg.cholesky(R) @ u)[:, 0] * rng.uniform(80, 400)
-    mv = [1 if (allvalid or rng.random() < 0.9) else 0 for _ in range(steps)]
-    lok = [1 if (allvalid or rng.random() < 0.9) else 0 for _ in range(steps)]
+    pfl = 1.0 if (allvalid or plain) else 0.965
+    fl = {k: [1 if rng.random() < pfl else 0 for _ in range(steps)] for k in ("mv", "pv", "iv", "cv")}
+    lok = [1 if (allvalid or plain or rng.random() < 0.93) else 0 for _ in range(steps)]
+    sk = {k: [0 if (allvalid or plain or rng.random() < 0.96) else 1 for _ in range(steps)] for k in ("skpp", "skgp", "skpc", "skgc")}
     scale = 1.0 if rng.random() < 0.5 else 10 ** rng.uniform(-3, 3)
-    if rng.random() < 0.03:
+    if rng.random() < 0.03 and not plain:
         scale = 0.0                                  # every likelihood exactly 0: ln(0 + eps)
-    # the covariance recursion does not depend on the data: its conditioning is known in advance
+    # what the wrapped correction and the likelihood model can use
+    gcok = [int(fl["mv"][k] and fl["pv"][k] and fl["iv"][k] and (fl["cv"][k] or wrap != "kf")) for k in range(steps)]
+    lflags = {("l%d" % (j + 1)): [(fl[f][k] if likkind == "gaussian" else 1) for k in range(steps)] for j, f in enumerate(("mv", "pv", "iv", "cv"))}
+    likok = [int(lok[k] and all(lflags["l%d" % j][k] for j in (1, 2, 3, 4))) for k in range(steps)]
+    # conditioning of the linear part of the covariance recursion (exact for hkind 0; an indication otherwise)
     Ps = [P.copy() for P in covs]
-    for k in range(steps):
-        Ps = [F @ P @ F.T + Q for P in Ps]
-        cond = max(cond, max(np.linalg.cond(P) for P in Ps))
-        if mv[k]:
-            nxt = []
-            for P in Ps:
-                S = H @ P @ H.T + R
-                cond = max(cond, np.linalg.cond(S))
-                K = P @ H.T @ np.linalg.inv(S)
-                nxt.append(P - K @ S @ K.T)
-            Ps = nxt
+    if singular:
+        cond = max(cond, 1e6)        # the beliefs themselves are (nearly) singular: only S = H P H^T + R is inverted
+    else:
+        for k in range(steps):
+            if not (sk["skpp"][k] or sk["skgp"][k]):
+                Ps = [F @ P @ F.T + Q for P in Ps]
             cond = max(cond, max(np.linalg.cond(P) for P in Ps))
-    c.meta.update({"fkind": fk, "hkind": hkind, "cond": "%.3g" % cond, "invalid": "".join("v" if (a and b) else ("m" if not a else "l") for a, b in zip(mv, lok)),
-                 "same_trans": int(np.array_equal(F, Ft) and np.array_equal(Q, Qt)), "outlier": int(outlier), "scale0": int(scale == 0.0)})
-    c.mat("F", F).mat("Q", Q).mat("H", H).mat("R", R).mat("Ft", Ft).mat("Qt", Qt)
+            if gcok[k] and not sk["skgc"][k] and not sk["skpc"][k] and likok[k]:
+                nxt = []
+                for P in Ps:
+                    S = H @ P @ H.T + R
+                    cond = max(cond, np.linalg.cond(S))
+                    K = P @ H.T @ np.linalg.inv(S)
+                    nxt.append(P - K @ S @ K.T)
+                Ps = nxt
+                cond = max(cond, max(np.linalg.cond(P) for P in Ps))
+    pattern = "".join("s" if sk["skpc"][k] else ("v" if likok[k] else "i") for k in range(steps))
+    c.meta.update({"fkind": fk, "hmat": hkind_H, "cond": "%.3g" % min(cond, 1e15), "invalid": pattern,
+                   "same_trans": int(np.array_equal(F, Ft) and np.array_equal(Q, Qt)), "outlier": int(outlier), "scale0": int(scale == 0.0)})
+    c.mat("F", F).mat("Q", Q).mat("H", H).mat("G", G).mat("G2", G2).mat("b", b).mat("g", g).mat("R", R).mat("Ft", Ft).mat("Qt", Qt)
     c.mat("c_state", states).mat("c_mean", means).mat("c_cov", np.hstack(covs)).mat("c_lw", lw.reshape(-1, 1))
     c.mat("p_state", gen.matrix(rng, n, N, 5.0)).mat("p_mean", gen.matrix(rng, n, N, 5.0))
     c.mat("p_cov", gen.matrix(rng, n, n * N, 5.0)).mat("p_lw", gen.matrix(rng, N, 1, 5.0))
-    c.mat("ys", ys).word("mv", mv).word("lok", lok).int("seed", rng.getrandbits(32)).mat("scale", [[scale]])
+    c.mat("ys", ys)
+    for k in ("mv", "pv", "iv", "cv"):
+        c.word(k, fl[k])
+    c.word("lok", lok).word("gcok", gcok).word("likok", likok)
+    for k in ("l1", "l2", "l3", "l4"):
+        c.word(k, lflags[k])
+    for k in ("skpp", "skgp", "skpc", "skgc"):
+        c.word(k, sk[k])
+    c.int("seed", rng.getrandbits(32)).mat("scale", [[scale]])
     return c
 
 
 def generate(rng, tier):
     cases = []
     for k in range(COUNTS[tier]):
-        cases.append(make_case(rng, k))
+        cases.append(make_case(rng, k, singular=(k % 20 == 7)))
     # supporting statistics: many particles, every correction valid, one seed per case
     for k in range(KS_CASES[tier]):
-        cases.append(make_case(rng, "ks%d" % k, n=1 + k % 4, N=30, steps=5, allvalid=True, kind="gpf_ks"))
+        cases.append(make_case(rng, "ks%d" % k, n=1 + k % 4, N=30, steps=5, allvalid=True, kind="gpf_ks", plain=True))
+    # a likelihood model that breaks its contract (one value too many: the prefix is used; one too few: out-of-bounds
+    # read, exercised only where Eigen's assertions are compiled in)
+    for k in range(BADLIK_CASES[tier]):
+        c = make_case(rng, "badlik%d" % k, steps=rng.randint(1, 2), allvalid=True, kind="gpf_badlik", plain=True)
+        c.int("badlik", 1 if k % 2 == 0 else -1)
+        cases.append(c)
     for k in range(LIFETIME_COUNT[tier]):
-        cases.append(make_case(rng, "fresh%d" % k, steps=1, allvalid=True, kind="gpf_fresh", wrap="kf"))
-        cases.append(make_case(rng, "moved%d" % k, steps=1, allvalid=True, kind="gpf_moved", wrap="kf"))
+        cases.append(make_case(rng, "fresh%d" % k, steps=1, allvalid=True, kind="gpf_fresh", wrap="kf", plain=True))
+        cases.append(make_case(rng, "moved%d" % k, steps=1, allvalid=True, kind="gpf_moved", wrap="kf", plain=True))
+    _stats["last_id"] = cases[-1].id
     return cases
 
 
 def nontrivial(c):
-    if c.kind in ("gpf_fresh", "gpf_moved"):
+    if c.kind in ("gpf_fresh", "gpf_moved", "gpf_badlik"):
         return None
     n, m, N, steps = (int(c.meta[k]) for k in ("n", "m", "N", "steps"))
     if N >= 2 and "v" in c.meta["invalid"]:
         ncls = "2-3" if N <= 3 else ("4-12" if N <= 12 else "13-30")
-        return (n, m, ncls, steps, c.meta["tkind"], c.meta["wrap"], c.meta["invalid"], gen.decade(float(c.meta["cond"])))
+        return (n, m, ncls, steps, c.meta["tkind"], c.meta["wrap"], c.meta["hkind"], c.meta["likkind"], c.meta["invalid"], gen.decade(float(c.meta["cond"])))
     return None
+
+
+# ------------------------------------------------------------------ shared helpers
+
+def _words(c, name):
+    return [x != "0" for x in c.get(name)]
+
+
+def _conds(cov, n):
+    """Effective condition numbers of the n x n blocks of a concatenated covariance (inf for a singular / non-finite block).
+    The gain updates P - K S K^T leave P symmetric only up to eps * cond(S); the LDL^T reads the lower triangle while the
+    density inverts the whole matrix, so the measured relative asymmetry (in units of eps) multiplies the condition number."""
+    out = []
+    for i in range(cov.shape[1] // n):
+        P = cov[:, n * i:n * (i + 1)]
+        if not np.all(np.isfinite(P)):
+            out.append(math.inf); continue
+        ev = np.linalg.eigvalsh((P + P.T) / 2)
+        lo, hi = float(ev.min()), float(np.abs(ev).max())
+        if hi < 1e-25:
+            out.append(math.inf); continue          # numerically the zero matrix (generated covariances have entries of order 1e-3 .. 1e2)
+        asym = float(np.max(np.abs(P - P.T))) / max(hi, 1e-300)
+        out.append(hi / lo * (1.0 + asym / 2.2e-16) if lo > 0 else math.inf)
+    return out
+
+
+def _lowsym(P):
+    """The symmetric matrix Eigen's LDLT factorises: the lower triangle of P mirrored."""
+    return np.tril(P) + np.tril(P, -1).T
+
+
+def _log(v):
+    return math.log(v) if v > 0 else -math.inf
+
+
+def _unit(cR, cQ, cP, l, t, q):
+    """Per-particle conditioning unit of the log-domain quantities of one correction: the log-densities are
+    -(n ln 2pi + ln det + quadratic form)/2, computed through an inverse, so their absolute error is proportional to the
+    condition number of the matrix inverted and to their own magnitude."""
+    return (cR + cQ + cP) * (1.0 + abs(_log(max(l, UNDERFLOW))) + abs(_log(max(t, UNDERFLOW))) + abs(_log(max(q, UNDERFLOW))))
 
 
 # ------------------------------------------------------------------ correspondence
 
-UNDERFLOW = 1e-290
-
-
 def compare(c, impl, model):
     if c.kind in ("gpf_fresh", "gpf_moved"):
         return []
+    if impl.get("skipped_ndebug") == 1:
+        return []
     cond = float(c.meta["cond"])
-    steps = int(c.meta["steps"])
+    n, N, steps = int(c.meta["n"]), int(c.meta["N"]), int(c.meta["steps"])
+    badlik = c.get("badlik") if c.has("badlik") else 0
+    skpc = _words(c, "skpc")
+    cR = float(np.linalg.cond(c.get("R")))
+    cQ = float(np.linalg.cond(c.get("Qt"))) if c.meta["tkind"] != "cauchy" else 1.0
     # The square-root factor is left free by the property: when the implementation's positions are not m + L z for the
-    # driver's LDL^T factor, the driver maps them back (z' = L^-1 (x - m)), re-runs the step on z' and reports
+    # model's LDL^T factor, the driver maps them back (z' = L^-1 (x - m)), re-runs the step on z' and reports
     # | |z'|^2 - |z|^2 | (zz_dev): positions are then compared through the relation the property states.
     if model.get("other_factor_steps", 0) > 0:
         _stats["other_factor_steps"] += model.get("other_factor_steps")
-    fields, tiny = [], []
-    uf = False      # a density of this or an earlier step is in the underflow range
+    fields, d = [], []
+    singular = False                         # a singular belief was met: positions / weights are outside the domain from here on
+    tol_lw = np.zeros(N)                     # accumulated per-particle tolerance of the log-weights
+    lw_dead = np.zeros(N, dtype=bool)        # particles whose log-weight depends on a density in the underflow range
+    chain = np.ones(N)
+    Hm, Rm, Gm, G2m, bm, gm, Ftm, ys_ = (c.get(x) for x in ("H", "R", "G", "G2", "b", "g", "Ft", "ys"))
+    hk_ = int(c.meta["hkind"])
+    Rinv = np.linalg.inv(Rm)
+    Qtinv = np.linalg.inv(c.get("Qt")) if c.meta["tkind"] != "cauchy" else None
     for k in range(steps):
-        fields += ["p%d_components" % k, "c%d_components" % k]
-        fields += ["p%d_mean" % k, "p%d_cov" % k, "c%d_mean" % k, "c%d_cov" % k]
+        fields += ["p%d_components" % k, "c%d_components" % k, "p%d_mean" % k, "p%d_cov" % k, "c%d_mean" % k, "c%d_cov" % k, "valid%d" % k]
         if k == 0:
             fields += ["p0_state", "p0_lw"]
-        fields += ["p%d_state" % k, "c%d_state" % k, "valid%d" % k]
-        if not uf:
-            fields.append("p%d_lw" % k)
-        if impl.get("valid%d" % k) == 1:
-            # Eigen's vectorised exp floors at exp(-709.44) = 5.56e-309 where libm's exp underflows to 0; under
-            # ln(. + eps) that is a difference of 0.22 in a log-weight.  Densities below 1e-290 are compared
-            # absolutely and the log-weights that depend on them are counted, not compared.
-            vals = [impl.get(f % k) for f in ("lik%d", "t%d", "q%d")] + [model.get(f % k) for f in ("lik%d", "q%d")]
-            if any(v is not None and v.size and float(np.min(v)) < UNDERFLOW for v in vals):
-                if not uf:
-                    _stats["underflow_histories"] += 1
-                uf = True
-                tiny += ["lik%d" % k, "q%d" % k]
-            else:
-                fields += ["lik%d" % k, "q%d" % k]
-        if not uf:
-            fields.append("c%d_lw" % k)
-    d = caseio.compare_fields(impl, model, fields, atol=1e-300, rtol=1e-9, scale=cond)
-    d += caseio.compare_fields(impl, model, tiny, atol=UNDERFLOW, rtol=1e-9, scale=cond)
+        cP = _conds(impl.get("c%d_cov" % k), n)
+        if any(x > SINGULAR for x in cP):
+            singular = True
+        else:
+            # conditioning of the particle's own chain so far: predicted covariance, innovation covariance, corrected covariance
+            pc = impl.get("p%d_cov" % k)
+            cPp = _conds(pc, n)
+            for i in range(N):
+                Pp = pc[:, n * i:n * (i + 1)]
+                cS = float(np.linalg.cond(Hm @ Pp @ Hm.T + Rm)) if np.all(np.isfinite(Pp)) else math.inf
+                chain[i] = max(chain[i], cP[i], cPp[i], cS)
+        if singular:
+            continue
+        fields += ["p%d_state" % k, "c%d_state" % k]
+        valid = impl.get("valid%d" % k) == 1
+        # likelihood_ is an observable of its own (getLikelihood()): compared on invalid steps too
+        il, ml = impl.get("lik%d" % k), model.get("lik%d" % k)
+        if not valid or skpc[k] or badlik:
+            if badlik == 0 and (il.shape != ml.shape or not caseio.close(il, ml, 1e-300, 1e-9 * cond)):
+                d.append("lik%d (invalid or skipped step): impl=%s model=%s" % (k, il.reshape(-1)[:4], ml.reshape(-1)[:4]))
+        if not valid or skpc[k]:
+            # log-weights are copied on an invalid / skipped correction
+            pass
+        else:
+            t, iq, mq = impl.get("t%d" % k), impl.get("q%d" % k), model.get("q%d" % k)
+            xs_i, xp_i = impl.get("c%d_state" % k), impl.get("p%d_state" % k)
+            # the observed square-root factor of the library against the model's (Gallina) factor
+            iL, mL = impl.get("L%d" % k), model.get("L%d" % k)
+            for i in range(N):
+                li, ti, qi = float(il[i, 0]), float(t[i, 0]), float(iq[i, 0])
+                # sensitivity of the log-likelihood / log-transition density to the rounding of the drawn position itself
+                # (which carries the conditioning of the particle's chain): |grad ln l| |x| and |grad ln t| |x|
+                xi_ = xs_i[:, i]; xn = float(np.linalg.norm(xi_)) + 1e-300
+                nu = ys_[:, k] - h_eval(hk_, Hm, Gm, G2m, bm, gm, xi_.reshape(-1, 1))[:, 0]
+                sens = float(np.linalg.norm(h_jac(hk_, Hm, Gm, G2m, gm, xi_.reshape(-1, 1)).T @ Rinv @ nu)) * xn
+                if c.meta["tkind"] != "cauchy":
+                    sens += float(np.linalg.norm(Qtinv @ (xi_ - Ftm @ xp_i[:, i]))) * xn
+                u = _unit(cR, cQ, chain[i], li, ti, qi) + chain[i] * sens
+                tol = C_LOG * u
+                tol_lw[i] += 3 * tol        # three log-densities enter each update
+                if min(li, ti, qi, float(ml[i, 0]), float(mq[i, 0])) < UNDERFLOW:
+                    if li > 0 or float(ml[i, 0]) > 0 or c.meta["scale0"] != "1":
+                        if not lw_dead[i]:
+                            _stats["underflow_particles"] += 1
+                        lw_dead[i] = True
+                for name, a, bb in (("lik", li, float(ml[i, 0])), ("q", qi, float(mq[i, 0]))):
+                    if a < UNDERFLOW or bb < UNDERFLOW:
+                        if abs(a - bb) > UNDERFLOW:
+                            d.append("%s%d[%d]: impl=%.6g model=%.6g (underflow range)" % (name, k, i, a, bb))
+                        continue
+                    diff = abs(math.log(a) - math.log(bb))
+                    _stats["ratios"][name].append(diff / (u * 1.1e-16))
+                    if diff / (u * 1.1e-16) > 300 and os.environ.get("C08_DEBUG"):
+                        print("DBG", c.id, c.meta["wrap"], c.meta["hkind"], c.meta["tkind"], c.meta["cond"], name, k, i, "ratio %.3g cP %.3g cR %.3g" % (diff / (u * 1.1e-16), chain[i], cR), file=__import__("sys").stderr)
+                    if not diff <= tol:
+                        d.append("ln %s%d[%d]: |impl-model|=%.3g (tol %.3g)" % (name, k, i, diff, tol))
+                if model.get("other_factor_steps", 0) == 0:
+                    A, B = iL[:, n * i:n * (i + 1)], mL[:, n * i:n * (i + 1)]
+                    dl = caseio.maxdiff(A, B) / max(1e-300, float(np.max(np.abs(A))))
+                    _stats["ratios"]["L"].append(dl / (chain[i] * 1.1e-16))
+                    if dl / (chain[i] * 1.1e-16) > 3000 and os.environ.get("C08_DEBUG"):
+                        print("DBGL", c.id, c.meta["wrap"], c.meta["hkind"], c.meta["cond"], k, i, dl, chain[i], A.tolist(), B.tolist(), file=__import__("sys").stderr)
+                    if not dl <= 1e-11 * chain[i]:
+                        d.append("L%d[%d]: observed square-root factor differs from the model's, relative %.3g (tol %.3g)" % (k, i, dl, 1e-11 * chain[i]))
+        # log-weights, per particle
+        for pre in ("p%d" % (k + 1), "c%d" % k):
+            if pre.startswith("p") and k + 1 >= steps:
+                continue
+            a, bb = impl.get(pre + "_lw"), model.get(pre + "_lw")
+            if a is None or bb is None or a.shape != bb.shape:
+                d.append("%s_lw: missing or shape" % pre); continue
+            for i in range(N):
+                if lw_dead[i]:
+                    continue
+                x, y = float(a[i, 0]), float(bb[i, 0])
+                tol = tol_lw[i] + 4e-16 * (k + 2) * max(1.0, abs(x))
+                if x == y or (math.isnan(x) and math.isnan(y)):
+                    continue
+                if pre.startswith("c"):
+                    _stats["tol_lw"].append(tol)
+                if pre.startswith("c") and tol_lw[i] > 0:
+                    _stats["ratios"]["lw"].append(abs(x - y) / (tol_lw[i] / (3 * C_LOG) * 1.1e-16))
+                if not abs(x - y) <= tol:
+                    d.append("%s_lw[%d]: |impl-model|=%.3g (tol %.3g)" % (pre, i, abs(x - y), tol))
+        # the draws consumed: n per particle on a valid correction (correspondence only); on an invalid one the number is
+        # left free (testing what can be tested before sampling is a harmless rewrite), on a skipped one it is 0
+        if (valid and not skpc[k] and impl.get("nz%d" % k) != n * N) or (skpc[k] and impl.get("nz%d" % k) != 0):
+            d.append("nz%d: %s standard-normal draws consumed by the implementation" % (k, impl.get("nz%d" % k)))
+    d += caseio.compare_fields(impl, model, fields, atol=1e-300, rtol=1e-9, scale=cond)
     zz = model.get("zz_dev", 0.0)
-    if zz > 1e-7 * cond or math.isnan(zz):
+    if not singular and (zz > 1e-9 * cond or math.isnan(zz)):
         d.append("positions are not m + L z for a factor with L L^T = P: relative | |L^-1 (x-m)|^2 - |z|^2 | = %.3g" % zz)
-    if model.get("sqrt_resid", 0.0) > 1e-10 * cond or math.isnan(model.get("sqrt_resid", 0.0)):
-        d.append("square-root oracle of the model violates its contract: |LL^T-P|/|P| = %.3g" % model.get("sqrt_resid"))
-    return d
+    return d[:12]
 
 
 # ------------------------------------------------------------------ property oracle
@@ -248,15 +454,20 @@ def compare(c, impl, model):
 def _logdens(x, mean, cov):
     d = x - mean
     n = len(d)
-    return -0.5 * (n * math.log(2 * math.pi) + math.log(np.linalg.det(cov)) + float(d @ np.linalg.solve(cov, d)))
+    sign, ld = np.linalg.slogdet(cov)
+    return -0.5 * (n * math.log(2 * math.pi) + ld + float(d @ np.linalg.solve(cov, d)))
 
 
 def _exp(v):
     return math.exp(v) if v > -745.2 else 0.0
 
 
-def _absmax(v):
-    return abs(v) if math.isfinite(v) else 1.0
+def _close_logdens(val, logspec, tol):
+    """val against exp(logspec) in the log domain; absolute in the underflow range."""
+    spec = _exp(logspec)
+    if val < UNDERFLOW or spec < UNDERFLOW:
+        return abs(val - spec) <= 2 * UNDERFLOW
+    return abs(math.log(val) - logspec) <= tol
 
 
 def chi2_cdf(x, k):
@@ -314,27 +525,47 @@ def lifetime_oracle(c, impl):
     return v
 
 
-def on_crash(c, info, model):
-    """Sanitizer reports for the lifetime kinds are the same findings (reads of never-written / destroyed storage)."""
-    if c.kind == "gpf_fresh" and info["kind"] in ("ubsan", "asan"):
-        return [(SIG_FRESH, "sanitizer: " + info["stderr"][-300:])]
-    if c.kind == "gpf_moved" and info["kind"] in ("ubsan", "asan"):
-        return [(SIG_MOVED, "sanitizer: " + info["stderr"][-300:])]
-    return None
+def _pooled_ks():
+    out = []
+    byn = {}
+    for n, s in _stats["d2"].values():
+        byn.setdefault(n, []).extend(s)
+    for n, s in sorted(byn.items()):
+        if n > 4 or len(s) < 200:
+            continue
+        D, p = ks_test(s, n)
+        if p < 1e-6:
+            out.append(("C08:chi-square-grossly-off:pooled", "pooled squared Mahalanobis distances (n=%d, %d draws) vs chi-square: KS D = %.4f, p = %.3g" % (n, len(s), D, p)))
+    return out
 
 
 def oracle(c, impl, model):
+    v = _oracle(c, impl, model)
+    # supporting statistics over the whole run, evaluated once with the last generated case (a finding only if grossly off)
+    if c.id == _stats["last_id"] and not _stats["pooled_done"]:
+        _stats["pooled_done"] = True
+        v = v + _pooled_ks()
+    return v
+
+
+def _oracle(c, impl, model):
     if c.kind in ("gpf_fresh", "gpf_moved"):
         return lifetime_oracle(c, impl)
+    if impl.get("skipped_ndebug") == 1:
+        return []
     v = []
     n, m, N, steps = (int(c.meta[k]) for k in ("n", "m", "N", "steps"))
-    cond = float(c.meta["cond"])
-    tk = c.meta["tkind"]
-    H, R, Ft, Qt = c.get("H"), c.get("R"), c.get("Ft"), c.get("Qt")
+    tk, hkind = c.meta["tkind"], int(c.meta["hkind"])
+    badlik = c.get("badlik") if c.has("badlik") else 0
+    H, G, G2, b, g, R, Ft, Qt = (c.get(k) for k in ("H", "G", "G2", "b", "g", "R", "Ft", "Qt"))
+    cR = float(np.linalg.cond(R)); cQ = float(np.linalg.cond(Qt)) if tk != "cauchy" else 1.0
     scale = float(c.get("scale")[0, 0])
     ys = c.get("ys")
+    skpp, skgp, skpc, likok = (_words(c, k) for k in ("skpp", "skgp", "skpc", "likok"))
     prev = {f: c.get("c_" + f) for f in ("state", "mean", "cov", "lw")}
+    prev_valid, prev_lik = False, np.zeros((0, 1))
     d2_case = []
+    dead = np.zeros(N, dtype=bool)      # particles that met a singular belief: their positions are outside the domain from then on
     if impl.get("rng_mirror_ok") != 1:
         v.append(("C08:draws-not-the-seeded-stream", "the draws consumed differ from mt19937_64(seed) + normal_distribution(0,1) in order"))
     for k in range(steps):
@@ -346,73 +577,107 @@ def oracle(c, impl, model):
             v.append(("C08:component-count", "%s: component count changed" % tag)); break
         if impl.get("prev_unchanged%d" % k) != 1:
             v.append(("C08:predict-modifies-input", "%s: the set passed to predict was modified" % tag))
-        if not np.array_equal(P_["state"], prev["state"]):
+        if not _same(P_["state"], prev["state"]):
             v.append(("C08:predict-moves-positions", "%s: positions changed by the prediction, max diff %.3g" % (tag, caseio.maxdiff(P_["state"], prev["state"]))))
-        if not np.array_equal(P_["lw"], prev["lw"]):
+        if not _same(P_["lw"], prev["lw"]):
             v.append(("C08:predict-changes-weights", "%s: weights changed by the prediction, max diff %.3g" % (tag, caseio.maxdiff(P_["lw"], prev["lw"]))))
         for f in ("mean", "cov"):
-            sep = impl.get("sep_p%d_%s" % (k, f))
-            if not caseio.close(P_[f], sep, 1e-13 * max(1.0, float(np.max(np.abs(sep)))), 0):
-                v.append(("C08:predict-beliefs-not-wrapped-step", "%s: %s differs from the wrapped Gaussian prediction run separately, max diff %.3g" % (tag, f, caseio.maxdiff(P_[f], sep))))
+            if skpp[k] or skgp[k]:
+                if not _same(P_[f], prev[f]):
+                    v.append(("C08:skipped-prediction-changes-beliefs", "%s: %s changed by a skipped prediction, max diff %.3g" % (tag, f, caseio.maxdiff(P_[f], prev[f]))))
+            else:
+                sep = impl.get("sep_p%d_%s" % (k, f))
+                if not caseio.close(P_[f], sep, 1e-13 * max(1.0, float(np.max(np.abs(sep)))), 0):
+                    v.append(("C08:predict-beliefs-not-wrapped-step", "%s: %s differs from the wrapped Gaussian prediction run separately, max diff %.3g" % (tag, f, caseio.maxdiff(P_[f], sep))))
         # ---- correction
         if impl.get("pred_unchanged%d" % k) != 1:
             v.append(("C08:correct-modifies-input", "%s: the predicted set passed to correct was modified" % tag))
-        if impl.get("nz%d" % k) != n * N:
-            v.append(("C08:draw-count", "%s: %s standard-normal draws consumed, expected %d" % (tag, impl.get("nz%d" % k), n * N)))
         valid = impl.get("valid%d" % k) == 1
-        expect_valid = c.get("mv")[k] != "0" and c.get("lok")[k] != "0"
-        if valid != expect_valid:
-            v.append(("C08:likelihood-validity", "%s: valid_likelihood_ = %s but the likelihood model reported %s" % (tag, valid, expect_valid)))
+        lik = impl.get("lik%d" % k)
+        if skpc[k]:
+            # PFCorrection::skip_: the predicted set is returned, valid_likelihood_ / likelihood_ are not touched
+            for f in ("state", "mean", "cov", "lw"):
+                if not _same(C_[f], P_[f]):
+                    v.append(("C08:skipped-correction-changes-set", "%s: %s of the output differs from the predicted set" % (tag, f)))
+            if valid != prev_valid or not _same(lik, prev_lik):
+                v.append(("C08:skipped-correction-changes-likelihood-members", "%s: getLikelihood() changed across a skipped correction" % tag))
+            prev = C_
+            continue
+        if valid != likok[k]:
+            v.append(("C08:likelihood-validity", "%s: valid_likelihood_ = %s but the likelihood model reported %s" % (tag, valid, likok[k])))
         if not valid:
             for f in ("state", "mean", "cov", "lw"):
-                if not np.array_equal(C_[f], P_[f]):
+                if not _same(C_[f], P_[f]):
                     v.append(("C08:invalid-likelihood-not-restored", "%s: %s of the output differs from the predicted set, max diff %.3g" % (tag, f, caseio.maxdiff(C_[f], P_[f]))))
+            # getLikelihood() reports what the likelihood model returned with its verdict (VectorXd::Zero(1) for the shipped / harness models)
+            if not likok[k] and not (lik.shape == (1, 1) and lik[0, 0] == 0.0):
+                v.append(("C08:likelihood-stale-on-invalid", "%s: getLikelihood() after an invalid evaluation reports %d value(s) %s instead of the model's return value [0]"
+                          % (tag, lik.shape[0], lik.reshape(-1)[:3])))
         else:
             for f in ("mean", "cov"):
                 sep = impl.get("sep_c%d_%s" % (k, f))
                 if not caseio.close(C_[f], sep, 1e-13 * max(1.0, float(np.max(np.abs(sep)))), 0):
                     v.append(("C08:correct-beliefs-not-wrapped-step", "%s: %s differs from the wrapped Gaussian correction run separately, max diff %.3g" % (tag, f, caseio.maxdiff(C_[f], sep))))
-            lik, t, q, z = impl.get("lik%d" % k), impl.get("t%d" % k), impl.get("q%d" % k), impl.get("z%d" % k)
-            if lik.shape[0] != N or t.shape[0] != N:
+            t, q, z, L = impl.get("t%d" % k), impl.get("q%d" % k), impl.get("z%d" % k), impl.get("L%d" % k)
+            if (lik.shape[0] != N and not (badlik > 0 and lik.shape[0] == N + badlik)) or t.shape[0] != N:
                 v.append(("C08:likelihood-size", "%s: %d likelihood / %d transition values for %d particles" % (tag, lik.shape[0], t.shape[0], N))); break
+            cP = _conds(C_["cov"], n)
             for i in range(N):
                 x, mu, Pc = C_["state"][:, i], C_["mean"][:, i], C_["cov"][:, n * i:n * (i + 1)]
                 xp = P_["state"][:, i]
                 li, ti, qi = float(lik[i, 0]), float(t[i, 0]), float(q[i, 0])
+                got = float(C_["lw"][i, 0])
+                if cP[i] > SINGULAR or dead[i] or not np.all(np.isfinite(xp)):
+                    dead[i] = True
+                    # outside the domain of the property (premise spd P of the theorems): the proposal density of a singular
+                    # Gaussian does not exist; counted, not judged
+                    _stats["singular_belief_particles"] += 1
+                    if math.isnan(got) or math.isinf(got):
+                        _stats["nan_weight_with_valid_on_singular"] += 1
+                    continue
                 # weight identity from the implementation's own values
                 terms = [float(P_["lw"][i, 0]), math.log(li + EPS) if li + EPS > 0 else math.nan, math.log(ti + EPS) if ti + EPS > 0 else math.nan,
                          -math.log(qi + EPS) if qi + EPS > 0 else math.nan]
                 want = sum(terms)
-                tolw = 1e-11 * sum(abs(a) for a in terms) + 1e-12
-                got = float(C_["lw"][i, 0])
+                tolw = 4e-15 * sum(abs(a) for a in terms) + 1e-15
                 if not (abs(got - want) <= tolw):
                     v.append(("C08:weight-identity", "%s particle %d: log-weight %.17g, expected lw + ln(l+eps) + ln(t+eps) - ln(q+eps) = %.17g (l=%.6g t=%.6g q=%.6g)" % (tag, i, got, want, li, ti, qi)))
-                # Mahalanobis identity: (x-m)^T P^-1 (x-m) = |z|^2
+                # the library's square-root factor (observed through sampleFromProposal(0, P) on unit draws): L L^T = P
+                Li = L[:, n * i:n * (i + 1)]
+                res = caseio.maxdiff(Li @ Li.T, _lowsym(Pc)) / max(1e-300, float(np.max(np.abs(Pc))))
+                if not res <= 1e-12 * cP[i]:
+                    v.append(("C08:sqrt-factor-contract", "%s particle %d: |L L^T - P| / |P| = %.3g for the factor used by sampleFromProposal (cond %.3g)" % (tag, i, res, cP[i])))
+                # positions: x = m + L z with that factor, and the Mahalanobis identity (x-m)^T P^-1 (x-m) = |z|^2
+                xs_ = mu + Li @ z[:, i]
+                if not caseio.close(x, xs_, 1e-13 * cP[i] * max(1.0, float(np.max(np.abs(x)))), 0):
+                    v.append(("C08:position-not-mean-plus-sqrt-times-draw", "%s particle %d: max |x - (m + L z)| = %.3g" % (tag, i, caseio.maxdiff(x, xs_))))
                 zz = float(z[:, i] @ z[:, i])
                 Ps = (Pc + Pc.T) / 2
                 d2 = float((x - mu) @ np.linalg.solve(Ps, x - mu))
-                if not (abs(d2 - zz) <= 1e-7 * cond * max(1.0, zz)):
+                if not (abs(d2 - zz) <= 1e-11 * cP[i] * max(1.0, zz)):
                     v.append(("C08:mahalanobis", "%s particle %d: (x-m)^T P^-1 (x-m) = %.12g but |z|^2 = %.12g" % (tag, i, d2, zz)))
                 d2_case.append(d2)
                 # likelihood on the drawn position, transition on (previous position, drawn position), proposal at the drawn position
-                ls = (math.log(scale) if scale > 0 else -math.inf) + _logdens(ys[:, k], H @ x, R)
-                if not _close_dens(li, ls, 1e-7 * cond):
-                    v.append(("C08:likelihood-not-on-drawn-states", "%s particle %d: likelihood %.6g, scale*N(y; H x_i, R) at the drawn position = %.6g" % (tag, i, li, _exp(ls))))
+                hx = h_eval(hkind, H, G, G2, b, g, x.reshape(-1, 1))[:, 0]
+                ls = (math.log(scale) if scale > 0 else -math.inf) + _logdens(ys[:, k], hx, R)
+                if not _close_logdens(li, ls, 1e-11 * cR * (1 + (abs(ls) if math.isfinite(ls) else 0))):
+                    v.append(("C08:likelihood-not-on-drawn-states", "%s particle %d: likelihood %.6g, scale*N(y; h(x_i), R) at the drawn position = %.6g" % (tag, i, li, _exp(ls))))
                 if tk == "cauchy":
                     dd = x - Ft @ xp
-                    ts = -math.log1p(float(dd @ dd))
+                    ts = -math.log1p(float(dd @ dd)); ttol = 1e-13 * (1 + abs(ts))
                 else:
-                    ts = _logdens(x, Ft @ xp, Qt)
-                if not _close_dens(ti, ts, 1e-7 * cond):
+                    ts = _logdens(x, Ft @ xp, Qt); ttol = 1e-11 * cQ * (1 + abs(ts))
+                if not _close_logdens(ti, ts, ttol):
                     v.append(("C08:transition-not-p(cur|prev):tkind=%s" % tk, "%s particle %d: transition density %.6g, expected %.6g at (previous position, drawn position)" % (tag, i, ti, _exp(ts))))
                 qs = _logdens(x, mu, Ps)
-                if not _close_dens(qi, qs, 1e-7 * cond):
+                if not _close_logdens(qi, qs, 1e-11 * cP[i] * (1 + abs(qs))):
                     v.append(("C08:proposal-density", "%s particle %d: proposal density %.6g, N(x_i; m_i, P_i) = %.6g" % (tag, i, qi, _exp(qs))))
         prev = C_
+        prev_valid, prev_lik = valid, lik
         if len(v) > 12:
             break
     # supporting statistics (never a finding unless grossly off)
-    if d2_case:
+    if d2_case and n <= 4:
         _stats["d2"][c.id] = (n, d2_case)        # keyed by case: the oracle runs once per build variant
     if c.kind == "gpf_ks" and d2_case:
         D, p = ks_test(d2_case, n)
@@ -421,24 +686,41 @@ def oracle(c, impl, model):
     return v
 
 
-def _close_dens(val, logspec, rtol):
-    """val against exp(logspec): relative in the normal range, absolute near underflow."""
-    spec = _exp(logspec)
-    return abs(val - spec) <= rtol * max(1.0, _absmax(logspec)) * max(val, spec) + 1e-300
+def on_crash(c, info, model):
+    """Sanitizer reports for the lifetime kinds are findings (reads of never-written / destroyed storage).  A likelihood
+    vector that is one value short makes GPFCorrection.cpp:129 index past its end: the Eigen assertion is the expected
+    outcome (the case documents the length premise of C08_weight_formula) and is counted."""
+    if c.kind == "gpf_fresh" and info["kind"] in ("ubsan", "asan"):
+        return [(SIG_FRESH, "sanitizer: " + info["stderr"][-300:])]
+    if c.kind == "gpf_moved" and info["kind"] in ("ubsan", "asan"):
+        return [(SIG_MOVED, "sanitizer: " + info["stderr"][-300:])]
+    if c.kind == "gpf_badlik" and c.has("badlik") and c.get("badlik") < 0 and info["kind"] in ("eigen-assert", "asan", "ubsan"):
+        _stats["badlik_short_asserted"] += 1
+        return []
+    return None
+
+
+def _pct(a, q):
+    a = [x for x in a if math.isfinite(x)]
+    return float(np.percentile(a, q)) if len(a) else 0.0
 
 
 def histogram(cases):
-    h = {"n": {}, "N": {}, "steps": {}, "tkind": {}, "wrap": {}, "invalid_pattern_classes": {}, "cond_decade": {}}
+    h = {k: {} for k in ("n", "N", "steps", "tkind", "wrap", "hkind", "likkind", "invalid_pattern_classes", "cond_decade")}
     h["lifetime_cases"] = sum(1 for c in cases if c.kind in ("gpf_fresh", "gpf_moved"))
+    h["wrong_size_likelihood_cases"] = sum(1 for c in cases if c.kind == "gpf_badlik")
+    h["wrong_size_likelihood_short_asserted"] = _stats["badlik_short_asserted"]
     cases = [c for c in cases if c.kind not in ("gpf_fresh", "gpf_moved")]
     for c in cases:
-        for k in ("n", "steps", "tkind", "wrap"):
+        for k in ("n", "steps", "tkind", "wrap", "hkind", "likkind"):
             h[k][str(c.meta[k])] = h[k].get(str(c.meta[k]), 0) + 1
         N = int(c.meta["N"]); ncls = "1" if N == 1 else ("2-3" if N <= 3 else ("4-12" if N <= 12 else "13-30"))
         h["N"][ncls] = h["N"].get(ncls, 0) + 1
-        inv = c.meta["invalid"]; icls = "all-valid" if set(inv) == {"v"} else ("some-invalid" if "v" in inv else "none-valid")
+        inv = c.meta["invalid"]; icls = "all-valid" if set(inv) == {"v"} else ("some-invalid-or-skipped" if "v" in inv else "none-valid")
         h["invalid_pattern_classes"][icls] = h["invalid_pattern_classes"].get(icls, 0) + 1
         d = str(gen.decade(float(c.meta["cond"]))); h["cond_decade"][d] = h["cond_decade"].get(d, 0) + 1
+    h["skip_flag_cases"] = sum(1 for c in cases if any(x != "0" for k in ("skpp", "skgp", "skpc", "skgc") for x in c.get(k)))
+    h["singular_belief_cases"] = sum(1 for c in cases if c.meta.get("singular") in (1, "1"))
     ks = {}
     byn = {}
     for n, s in _stats["d2"].values():
@@ -448,21 +730,34 @@ def histogram(cases):
         ks["n=%d" % n] = {"samples": len(s), "KS_D": round(D, 5), "p_value": float("%.3g" % p), "mean_d2": round(float(np.mean(s)), 4)}
     h["chi_square_support"] = ks
     h["steps_compared_through_another_square_root_factor"] = _stats["other_factor_steps"]
-    h["underflow_histories_weights_not_compared"] = _stats["underflow_histories"]
+    h["particles_with_a_density_in_the_underflow_range_lw_not_compared"] = _stats["underflow_particles"]
+    h["singular_belief_particles_outside_domain"] = _stats["singular_belief_particles"]
+    h["of_which_nan_or_inf_log_weight_with_valid_1"] = _stats["nan_weight_with_valid_on_singular"]
+    # how tight the log-domain comparisons are: |impl - model| in units of eps * conditioning unit (tolerance = C_LOG / eps units)
+    h["tolerance_units"] = {k: {"n": len(a), "median": round(_pct(a, 50), 3), "p99": round(_pct(a, 99), 3), "max": round(_pct(a, 100), 3),
+                                "allowed": round((1e-11 if k == "L" else C_LOG) / 1.1e-16, 1)}
+                            for k, a in _stats["ratios"].items()}
+    a = _stats["tol_lw"]
+    h["log_weight_absolute_tolerance"] = {"n": len(a), "median": float("%.3g" % _pct(a, 50)), "p90": float("%.3g" % _pct(a, 90)), "max": float("%.3g" % _pct(a, 100))}
     return h
 
 
-LEVEL_TEXT = ("Proof: for the model of GPFPrediction::predictStep and GPFCorrection::correctStep (with sampleFromProposal / evaluateProposal, GaussianLikelihood and the "
-              "linear-Gaussian transition density) it is proved, for every arithmetic instance, dimension, particle count, wrapped Gaussian step, likelihood and transition model, "
-              "sequence of draws and history, that the prediction replaces the beliefs by the wrapped step's and leaves positions and log-weights untouched, that the correction "
-              "replaces the beliefs by the wrapped correction's, sets x_i = m_i + L_i z_i, evaluates the likelihood on the drawn positions, sets "
-              "lw'_i = lw_i + ln(l_i+eps) + ln(t_i+eps) - ln(q_i+eps) with q_i the Gaussian density at the drawn position (product form over R with the positivity guard proved), "
-              "and returns the predicted set when the likelihood is invalid; over MathComp matrices the Mahalanobis identity (x-m)^T P^-1 (x-m) = z^T z for SPD P and L L^T = P, "
-              "and with C01's Kalman correction as wrapped step the beliefs are the information-form posteriors. The chi-square law of the distances is reduced to this identity "
-              "plus the assumption that the draws are standard normal. The model is tied to the code by running the extracted model and the library on the same generated histories.")
-LEVEL_NOTE = ("Trusted: Coq kernel, MathComp, stdlib Reals axioms (product form only), extraction + float driver incl. its LDL^T square root, list instance of the matrix interface, "
-              "harness and tolerances; rounding is not modelled; the tie to the code is sampled (400 quick / 5000 thorough histories). The distribution clause is an identity plus an "
-              "assumption on std::normal_distribution (KS test as supporting evidence only). The theorems hold for any wrapped step; the correspondence check drives "
-              "KFPrediction/KFCorrection, UKFPrediction/UKFCorrection and UKFPrediction/SUKFCorrection over LTI models and compares them with the Kalman-step model "
-              "(equal on linear-Gaussian models by C04/C05). Where a density is below 1e-290 (Eigen's vectorised exp floors at 5.56e-309 instead of 0) log-weights "
-              "are checked by the identity on the implementation's own values only.")
+LEVEL_TEXT = ("Proof: for the model of GPFPrediction::predictStep and GPFCorrection::correctStep (with sampleFromProposal incl. a Gallina transcription of the pivoted LDL^T "
+              "factor, evaluateProposal, GaussianLikelihood with its four validity tests and the linear-Gaussian transition density) it is proved, for every arithmetic "
+              "instance, dimension, particle count, wrapped Gaussian step, likelihood and transition model, sequence of draws and history, that the prediction replaces the "
+              "beliefs by the wrapped step's and leaves positions and log-weights untouched, that the correction replaces the beliefs by the wrapped correction's, sets "
+              "x_i = m_i + L_i z_i, evaluates the likelihood on the drawn positions, sets lw'_i = lw_i + ln(l_i+eps) + ln(t_i+eps) - ln(q_i+eps) (under the length contracts of "
+              "the two models) with q_i the Gaussian density at the drawn position (product form over R with the positivity guard proved), and returns the predicted set when "
+              "the likelihood is invalid; over MathComp matrices the Mahalanobis identity (x-m)^T P^-1 (x-m) = z^T z for SPD P under the contract L L^T = P, and with C01's "
+              "Kalman correction as wrapped step the beliefs are the information-form posteriors. The chi-square law of the distances is reduced to this identity plus the "
+              "assumption that the draws are standard normal. The model is tied to the code by running the extracted model and the library on the same generated histories. "
+              "SEPARATE GROUP (9 of the obligations, LIFETIME_THEOREMS): a small state machine of construction / move / draw / destruction of GPFCorrection objects (random "
+              "source, validity flag, likelihood model) with invariants for all operation sequences and regression witnesses for the code before d193577 / 57c1b76; this "
+              "machine is NOT extracted and is tied to the code by scripted harness scenarios only.")
+LEVEL_NOTE = ("Trusted: Coq kernel, MathComp, stdlib Reals axioms (product form only), extraction + float driver (Jacobi factor for the unscented steps), list instance of the "
+              "matrix interface, C05_Model as imported wrapped step, harness and tolerances; rounding is not modelled; the tie to the code is sampled (about 400 quick / 5000 "
+              "thorough histories). The distribution clause is an identity plus an assumption on std::normal_distribution (KS tests as supporting evidence only). Singular "
+              "beliefs are outside the domain (premise spd P): generated and counted. Where a density is below 1e-305 (Eigen's vectorised exp floors at 5.56e-309 instead of 0) "
+              "log-weights are checked by the identity on the implementation's own values only. UKFPrediction is compared with the Kalman prediction (the state model of the "
+              "check is LTI: C04); the corrections use C05's unscented models with linear and nonlinear measurement functions. The lifetime group is scenario-tested, not "
+              "differentially tested.")
